@@ -378,9 +378,26 @@ def build_via_brackets(mt, scratch_dir, **opts):
     path = os.path.join(scratch_dir, 'via-%d-%d.mrg' % (os.getpid(), _via_counter[0] % 4))
     with open(path, 'w', encoding='utf-8') as f:
         f.write(codecs.encode_brackets([mt]))
+    if isinstance(mt.sid, int):
+        opts.setdefault('brackets_firstid', mt.sid)         # the format has no sentence ids
     with quiet():
         trees_ = list(treeinput.brackets(path, 'utf-8', quiet=True, **opts))
     os.unlink(path)
     if len(trees_) != 1:
         raise AssertionError('harness: bracket reader did not return exactly one tree')
     return trees_[0]
+
+
+def build_any(mt, order=None, **kw):
+    """build() for child orders None / 'rev' / int; 'export', 'tiger', 'brackets' deliver the same model tree
+    through the real reader of that format (what users really hold when they call a transformation).  The
+    bracket route loses edges, lemma and morph, and needs a continuous tree; the export route needs a VROOT
+    root."""
+    from .runner import scratch
+    if order == 'export':
+        return build_via_export(mt, scratch())
+    if order == 'tiger':
+        return build_via_tiger(mt, scratch())
+    if order == 'brackets':
+        return build_via_brackets(mt, scratch())
+    return build(mt, child_order=order, **kw)
